@@ -274,6 +274,11 @@ func extractRepl(repo string) {
 
 	// ---- primary: cursor, poll, push, limit
 	F.Facts["repl.poll.limit"] = rp.assignedExpr("Primary.getWALEntriesFromSequence", "maxEntriesToReturn")
+	// the transport keep-alive of the primary's listener: what drops a replica whose connection went silent without a close
+	// (the application heartbeat cannot: its sends into a dead connection succeed); literals in the pinned tree
+	F.Facts["repl.startPrimary.keepalive"] = "Time: " + oneLine(rp.apKvField("Manager.startPrimary", "Time")) + " ; Timeout: " + oneLine(rp.apKvField("Manager.startPrimary", "Timeout")) +
+		" ; MinTime: " + oneLine(rp.apKvField("Manager.startPrimary", "MinTime")) + " ; PermitWithoutStream: " + oneLine(rp.apKvField("Manager.startPrimary", "PermitWithoutStream"))
+	F.Facts["repl.startPrimary.msgsize"] = rp.callArgText("Manager.startPrimary", "grpc.MaxRecvMsgSize") + " / " + rp.callArgText("Manager.startPrimary", "grpc.MaxSendMsgSize")
 	F.Facts["repl.poll.bytes"] = one(rp.apLocalConst("Primary.getWALEntriesFromSequence", "maxBytesToReturn"), "maxBytesToReturn")
 	F.Facts["repl.poll.bytesCond"] = rp.apCondsMatching("Primary.getWALEntriesFromSequence", "maxBytesToReturn") + " ; range " + rp.apRangeOver("Primary.getWALEntriesFromSequence", "totalBytes")
 	F.Facts["repl.poll.limitCond"] = rp.replIfConds("Primary.getWALEntriesFromSequence", "maxEntriesToReturn")
